@@ -36,6 +36,15 @@ def corpus_fanout():
         sc = [EMBEDDED_D16]
     if not any(s["name"].startswith("D16") for s in sc):
         sc = [EMBEDDED_D16] + sc
+    # a second DespawnOutput of an id that is no longer registered (it answers with its error) must leave no trace: the consumers that
+    # attach afterwards are handed that id and receive everything from then on
+    for g in (1, 4, 16):
+        sc = sc + [{"name": "double-despawn-p%d" % g, "gomaxprocs": g, "seed": 77 + g, "icap": 8, "items": 120, "jitter": 1, "gate": 2,
+                    "bound_ms": BOUND_MS, "deadline_ms": 9000,
+                    "consumers": [{"kind": "fast", "spawn_at": 0, "despawn_at": 20, "double_despawn": True},
+                                  {"kind": "fast", "spawn_at": 0, "despawn_at": 120},
+                                  {"kind": "fast", "spawn_at": 40, "despawn_at": 100, "double_despawn": True},
+                                  {"kind": "slow", "spawn_at": 60, "despawn_at": 110, "slow_us": 40}]}]
     return sc
 
 
